@@ -3,7 +3,6 @@
 package stage
 
 import (
-	"bytes"
 	"encoding/json"
 	"fmt"
 	"os"
@@ -19,7 +18,7 @@ import (
 // C09: the receiver's record of partly received files is sound.
 
 type c09Action struct {
-	Op string `json:"op"` // recv | short
+	Op string `json:"op"` // recv | short | bad (first byte damaged in transit; the reader delivers all bytes)
 	V  string `json:"v"`  // version A | B | C
 	B  int64  `json:"b"`
 	E  int64  `json:"e"`
@@ -44,6 +43,28 @@ type c09Model struct {
 	done   bool // cur was completed (record may go away)
 	// a part of another version of the same size failed after (possibly) writing bytes
 	clobbered bool
+	// img: the bytes most recently acknowledged as written at each offset of cur (differs from the
+	// source where a part arrived damaged); written: offsets acknowledged at least once
+	img     []byte
+	written []bool
+}
+
+// holds: body carries, at [b,e), bytes that were received for version v there - the source
+// bytes or, where a damaged part was acknowledged, the bytes of that part.
+func (m *c09Model) holds(body []byte, v *version, cur bool, b, e int64) bool {
+	if int64(len(body)) < e || int64(len(v.Data)) < e {
+		return false
+	}
+	for i := b; i < e; i++ {
+		if body[i] == v.Data[i] {
+			continue
+		}
+		if cur && int64(len(m.img)) > i && m.written[i] && body[i] == m.img[i] {
+			continue
+		}
+		return false
+	}
+	return true
 }
 
 func covers(ranges [][2]int64, b, e int64) bool {
@@ -93,6 +114,10 @@ func c09RunIn(hist []c09Action) vh.HistResult {
 		if a.Op == "short" {
 			data = data[:len(data)-1]
 		}
+		if a.Op == "bad" {
+			data = append([]byte{}, data...)
+			data[0] ^= 0x20
+		}
 		path := w.stageDir + "/d/f"
 		prevState, prevHash := w.st.getFileState(path), w.st.getFileHash(path)
 		err := w.receive(p, data)
@@ -117,15 +142,17 @@ func c09RunIn(hist []c09Action) vh.HistResult {
 			case m.cur != a.V:
 				// a different version replaces the record
 				m.cur, m.acked, m.retain, m.done = a.V, nil, nil, false
-			case prevState == stateFailed:
-				// the failed copy is discarded and the transmission starts over
-				m.acked, m.retain, m.done = nil, nil, false
+				m.img, m.written = make([]byte, size), make([]bool, size)
 			case m.done:
 				// already complete: later parts start a new (redundant) transmission
 				m.acked, m.retain = nil, nil
 			}
 			m.acked = append(m.acked, [2]int64{a.B, a.E})
 			m.retain = append(m.retain, [2]int64{a.B, a.E})
+			copy(m.img[a.B:a.E], data)
+			for k := a.B; k < a.E; k++ {
+				m.written[k] = true
+			}
 		} else if m.cur != a.V {
 			// A part of a different version was announced but its reception failed. Whether the
 			// old record survives is left open ("until ... a different version replaces it"):
@@ -137,11 +164,20 @@ func c09RunIn(hist []c09Action) vh.HistResult {
 		}
 		completedNow := st != stateUnknown && m.cur != "" && stHash == vs[m.cur].Hash &&
 			(prevState == stateUnknown || prevState == stateFailed || prevHash != stHash) && err == nil
+		// the body the record describes: the complete one (.full / .wait) while the stage works on
+		// it; the partial in progress when there is none or when the complete one failed validation
 		var body []byte
-		for _, ext := range []string{partExt, fullExt, waitExt} {
+		exts := []string{partExt, fullExt, waitExt}
+		if st == stateFailed || st == stateUnknown {
+			exts = []string{waitExt, fullExt, partExt}
+		}
+		for _, ext := range exts {
 			if b, ok := w.staged("d/f", ext); ok {
 				body = b
 			}
+		}
+		if _, partLeft := w.staged("d/f", partExt); partLeft {
+			completedNow = false // Prepare creates <name>.part, completion renames it
 		}
 		desc := func() string { return fmt.Sprintf("after step %d %v (err=%v)", i, a, err) }
 		// 1. listed ranges hold exactly the source bytes of the listed version
@@ -157,7 +193,7 @@ func c09RunIn(hist []c09Action) vh.HistResult {
 				return res
 			}
 			for _, r := range listed.Parts {
-				if r.End > int64(len(body)) || r.Beg < 0 || r.End > int64(len(lv.Data)) || !bytes.Equal(body[r.Beg:r.End], lv.Data[r.Beg:r.End]) {
+				if r.End > int64(len(body)) || r.Beg < 0 || r.End > int64(len(lv.Data)) || !m.holds(body, lv, m.cur != "" && lv == vs[m.cur], r.Beg, r.End) {
 					res.Viol = fmt.Sprintf("%s: the partial listing claims range [%d,%d) of version %s, but the staged file holds %q there (source %q)", desc(), r.Beg, r.End, lv.Hash[:6], safeSlice(body, r.Beg, r.End), safeSlice(lv.Data, r.Beg, r.End))
 					if m.clobbered {
 						res.Class = "stale-record-after-failed-part"
@@ -176,7 +212,7 @@ func c09RunIn(hist []c09Action) vh.HistResult {
 					if n != 1 {
 						continue
 					}
-					held := int64(len(body)) >= e && bytes.Equal(body[b:e], q.Data[b:e])
+					held := m.holds(body, q, qn == m.cur, b, e)
 					for _, c := range delivered {
 						if c == "d/f "+q.Hash {
 							held = true
@@ -219,6 +255,11 @@ func c09RunIn(hist []c09Action) vh.HistResult {
 					return res
 				}
 			}
+		}
+		if st == stateFailed && completedNow {
+			// complete, but damaged: the sender will transmit the whole file again; nothing has to
+			// stay on record
+			m.acked, m.retain = nil, nil
 		}
 		w.consume()
 		w.settle()
@@ -308,6 +349,7 @@ func TestC09(t *testing.T) {
 	for _, iv := range [][2]int64{{0, 4}, {4, 8}, {6, 8}} {
 		alpha = append(alpha, c09Action{"short", "A", iv[0], iv[1]})
 	}
+	alpha = append(alpha, c09Action{"bad", "A", 0, 4}) // completes to a file that fails validation and is sent again
 	h := &vh.Hist[c09Action]{
 		Rep:        rep,
 		Alphabet:   func([]c09Action) []c09Action { return alpha },
@@ -317,5 +359,5 @@ func TestC09(t *testing.T) {
 		NonTrivial: func(hist []c09Action, r vh.HistResult) bool { return len(hist) >= 2 },
 	}
 	h.Explore()
-	rep.Bound = fmt.Sprintf("all sequences of <=%d parts of one 8-byte file: the 10 intervals on cut points {0,2,4,6,8} (disjoint, adjacent, identical, nested, overlapping), 3 short-reading readers, 4 parts of a same-size version with another hash, 3 parts of a version with another size; after every step: Scan, Received for every interval of every version, completion and retention checks", depth)
+	rep.Bound = fmt.Sprintf("all sequences of <=%d parts of one 8-byte file: the 10 intervals on cut points {0,2,4,6,8} (disjoint, adjacent, identical, nested, overlapping), 3 short-reading readers, one part damaged in transit (the file then fails validation and is transmitted again), 4 parts of a same-size version with another hash, 3 parts of a version with another size; after every step: Scan, Received for every interval of every version, completion and retention checks", depth)
 }
